@@ -351,8 +351,8 @@ def concrete_positions_check(text_lines: List[str]) -> Optional[str]:
     if open_at is not None and err_line is None:
         err_line = -1
     for form, src in (("list", list(text_lines)), ("str", "\n".join(text_lines))):
-        if form == "str" and any(l != l.rstrip() for l in text_lines):
-            continue      # trailing whitespace is stripped from str input: positions of later tokens are unaffected, but keep the forms comparable
+        # (str input: the tokenizer ignores white space at the end of each line, positions refer to the text as given, and
+        #  get_orig_text returns the characters of the given text - trailing white space inside a multi-line span included)
         try:
             root = parser.parse(src, do_cleanup=False)
         except L.LexicalError as e:
